@@ -24,7 +24,8 @@ CHECKS = {
  "C04": dict(
     text="The real binary_search_lightness, gradient_descent_oklch, generate_accessible_color and the three strategies run symbolically with dE / contrast as UFs and "
          "OKLCH conversions as fresh colours: each routine returns None/its input or a valid colour within the (largest) tolerance given; the library's schedules peak at "
-         "5.0 / 3.0 / 15.0; recursive steps chain from the previous colour; hence mode 0 stays within dE 5.0.",
+         "5.0 / 3.0 / 15.0; recursive steps chain from the previous colour; the default schedule is still the default after a relaxed-mode run in the same process; "
+         "hence mode 0 stays within dE 5.0.",
     note="bisection / descent loops truncated (3/3 quick, 4/6 thorough iterations; same loop body); numeric dE values abstracted (C11)",
     design="3 C04", technique=TECH, thorough=True),
  "C05": dict(
@@ -45,25 +46,27 @@ CHECKS = {
  "C07": dict(
     text="parse_color_to_rgb and the hsl/hsla/rgba helpers behind it are executed on CSS strings with symbolic numerals inside concrete spelling templates; "
          "per path the solver compares with the CSS Color 3 algorithms (nearest 8-bit value for opaque forms, within 1.5 of the source-over blend for translucent "
-         "forms over any background), equivalent spellings give identical terms, 3-tuples/lists parse to themselves, 148 keywords are ground obligations.",
+         "forms over any background), equivalent spellings give identical terms, 3-tuples/lists parse to themselves, 148 keywords are ground obligations; a z3 regex lemma over all strings shows every CSS number is matched "
+         "whole by the parser's numeral pattern (what the token abstraction assumes); hex parsing is a bounded CrossHair clause.",
     note="components range over their whole documented domain (8-bit ints, real percentages, hue in [-720,1080], alpha in [0,1]); spelling dimension is a finite "
          "template list; decimal literal -> double assumed exact; hex strings outside the symbolic claim",
     design="3 C07", technique=TECH, thorough=True),
  "C08": dict(
     text="Bounded partial claim. (1) z3's regex theory proves over ALL strings that every value on which the variable resolver's pattern finds a var(--N ..) reference is "
          "one the updater's pattern can rewrite (patterns read from the current source). (2) The real click callback `main` is executed symbolically, in-process, on "
-         "16 stylesheet skeletons whose colours are symbolic rgb() tokens passing through tinycss2 for real, make_readable a recording stub: every rule counted exactly once, "
+         "18 stylesheet skeletons (at-rules nested up to three levels) whose colours are symbolic rgb() tokens passing through tinycss2 for real, make_readable a recording stub: every rule counted exactly once, "
          "'already readable' only when the reference ratio meets 4.5/7.0, an adjusted rule's declaration or custom property in the written _cm.css IS the reported colour, "
          "make_readable called on the rule's own pair with (mode, premium), failures listed and unchanged.",
-    note="claimed ONLY for instances of the listed skeletons (one at-rule level, rgb() colours); arbitrary stylesheets are outside; one known finding (shared custom property "
+    note="claimed ONLY for instances of the listed skeletons (rgb() colours); arbitrary stylesheets are outside; one known finding (shared custom property "
          "rewritten per rule) is recorded in known_findings.txt; two genuine defects were repaired by fix: commits",
     design="3 C08", technique=TECH + "; z3 regular-expression theory for the var() pattern lemma", thorough=True),
  "C10": dict(
     text="The real rgb_to_oklch / oklch_to_rgb / safe wrappers run symbolically: forward over all 2^24 colours, L/C/H and the OKLab a,b equal the reference written from "
          "Ottosson's matrices (cube root, sqrt, atan2 as UFs: decided by congruence, any changed coefficient/sign/branch is a linear witness), ranges proved; inverse over "
          "all real (L,C,H) in the box: pre-rounding channel == 255*gamma(clip(reference inverse)), always a valid 8-bit colour, (0,0,.) black, (1,0,.) white; safe variants "
-         "return the plain result on valid input and a valid colour on invalid triples.",
-    note="equivalence with the published formula, not numeric magnitudes: the exhaustive lossless round trip (needs values of cbrt/cos/sin/atan2) is NOT claimed; grey-within-one-unit "
+         "return the plain result on valid input and a valid colour on invalid triples; table step of the round-trip chain (all 256 channel values map back through "
+         "the real transfer functions with a 1e-5 margin).",
+    note="equivalence with the published formula, not numeric magnitudes: the exhaustive lossless round trip is NOT claimed (its box-bound step did not discharge reliably on any solver); grey-within-one-unit "
          "for C=0 not claimed; doubles as reals",
     design="3 C10", technique=TECH, thorough=True),
  "C11": dict(
